@@ -225,6 +225,40 @@ def run(ctx):
     from .c08 import webhook_release_table
     webhook_release_table(ctx, program, "R15.16")
 
+    ctx.rule("R15.17", "task.wait_until takes the same (documented) argument names in both subsystems: every parameter of the legacy implementation is an argument the new "
+             "one accepts - as a trigger decorator's name, one of its keyword options, or a documented alias of one (webhook_local_only, webhook_methods, mqtt_trigger_encoding)", floor=1)
+    leg = program.func(LEGACY)
+    legacy_params = [a.arg for a in leg.args.args if a.arg not in ("cls", "self", "ast_ctx")] + [a.arg for a in leg.args.kwonlyargs]
+    accepted = set()
+    for rel in ("decorators/state.py", "decorators/timing.py", "decorators/event.py", "decorators/mqtt.py", "decorators/webhook.py", "decorator_abc.py"):
+        for n in ast.walk(program.module(rel)):
+            if isinstance(n, ast.ClassDef):
+                for st in n.body:
+                    tgt = st.targets[0] if isinstance(st, ast.Assign) and len(st.targets) == 1 else (st.target if isinstance(st, ast.AnnAssign) else None)
+                    if isinstance(tgt, ast.Name) and tgt.id == "name" and isinstance(getattr(st, "value", None), ast.Constant):
+                        accepted.add(st.value.value)
+                    if isinstance(tgt, ast.Name) and tgt.id == "kwargs_schema" and getattr(st, "value", None) is not None:
+                        for c in ast.walk(st.value):
+                            if isinstance(c, ast.Call) and (call_name(c) or "").split(".")[-1] in ("Optional", "Required") and c.args and isinstance(c.args[0], ast.Constant):
+                                accepted.add(c.args[0].value)
+    wu = program.func("decorator.py::DecoratorRegistry.wait_until")
+    for n in body_walk(wu):
+        if isinstance(n, ast.Call) and call_name(n) == "found_args.add" and n.args and isinstance(n.args[0], ast.Constant):
+            accepted.add(n.args[0].value)
+        if isinstance(n, ast.Dict) and n.keys and all(isinstance(k, ast.Constant) and isinstance(k.value, str) for k in n.keys):
+            accepted |= {k.value for k in n.keys}   # an alias table {documented name: (decorator, option)}
+        if isinstance(n, ast.For) and isinstance(n.iter, (ast.Tuple, ast.List)) and n.iter.elts and all(
+                isinstance(e, ast.Tuple) and e.elts and all(isinstance(x, ast.Constant) and isinstance(x.value, str) for x in e.elts) for e in n.iter.elts):
+            accepted |= {e.elts[0].value for e in n.iter.elts}   # an alias table written as pairs (documented name, option)
+    for n in ast.walk(program.module("decorator.py")):
+        if isinstance(n, ast.Assign) and isinstance(n.value, ast.Dict) and n.value.keys and all(isinstance(k, ast.Constant) and isinstance(k.value, str) for k in n.value.keys) \
+                and any("alias" in norm(t).lower() for t in n.targets):
+            accepted |= {k.value for k in n.value.keys}
+    missing = [p for p in legacy_params if p not in accepted]
+    ctx.check(not missing, "R15.17", "decorator.py::DecoratorRegistry.wait_until", "every documented argument name is accepted",
+              msg=f"task.wait_until in the new subsystem rejects the documented argument(s) {missing} (ValueError: Unknown arguments): the legacy implementation - and docs/reference.rst - "
+              f"name them; accepted are {sorted(accepted)}", key="wait_until argument names", node=wu, rel="decorator.py")
+
     ctx.rule("R15.6", "legacy wait_until: a notification received during a pending state_hold is never taken for the hold's expiry (scripted histories)", floor=7)
     from .c05 import legacy_hold_rules
     legacy_hold_rules(ctx, program, "R15.6", uids=(LEGACY,))
@@ -311,7 +345,7 @@ def decorator_typestate(ctx, program, rid):
 def timeout_table(ctx, program, rid):
     """WaitUntilDecoratorManager.__init__ interpreted for timeout values: every given number - 0 included - yields the timeout trigger once(now + <t>s)."""
     uid = "decorator.py::WaitUntilDecoratorManager.__init__"
-    for t in (0, 0.0, 0.5, 30, None, "absent"):
+    for t in (0, 0.0, 0.5, 30, -1, None, "absent"):
         made = []
 
         def to_dec(i, n, a, k, c, o, made=made):
@@ -337,8 +371,11 @@ def timeout_table(ctx, program, rid):
                 specs = [x.v for m in made if isinstance(m, ListV) for x in m.items if isinstance(x, Const)]
                 if len(adds) != 1 or td in (NONE, None):
                     bad = f"no timeout trigger is created: the wait never returns 'timeout' (specs {specs})"
-                elif specs != [f"once(now + {t}s)"]:
+                elif t >= 0 and specs != [f"once(now + {t}s)"]:
                     bad = f"the timeout trigger is built from {specs} instead of ['once(now + {t}s)']"
+                elif t < 0 and specs not in (["once(now + 0s)"], ["once(now)"], ["once(now + 0.0s)"]):
+                    bad = (f"the timeout trigger is built from {specs}: an instant in the past never occurs, the wait never returns (a timeout that has already passed is a "
+                           "timeout now: the legacy subsystem returns 'timeout' at once)")
         ctx.check(bool(ex) and bad is None, rid, uid, f"timeout={t!r}", msg=f"task.wait_until(..., timeout={t!r}) (new subsystem): {bad or 'no exit'}", key=f"timeout value {t!r}",
                   node=program.func(uid), rel="decorator.py")
 
